@@ -15,12 +15,13 @@ Traces == ndJsonDeserialize(IOEnv.TRACE_FILE)
 NT == Len(Traces)
 ASSUME \A i \in 1..NT : TLCSet(i, 0)
 
-VARIABLES tid, l, chk        \* chk: the store changed in the last step (laws are evaluated once per store state)
+VARIABLES tid, l, chk,       \* chk: the store changed in the last step (laws are evaluated once per store state)
+          pre               \* the store before the last step (history variable for NoAliasing)
 T  == Traces[tid]
 Ev == T.ev[l]
-IsEvent(e) == l <= Len(T.ev) /\ Ev.e = e /\ l' = l + 1 /\ UNCHANGED tid
+IsEvent(e) == l <= Len(T.ev) /\ Ev.e = e /\ l' = l + 1 /\ pre' = objs /\ UNCHANGED tid
 
-Init == tid \in 1..NT /\ l = 1 /\ chk = FALSE /\ StoreInit
+Init == tid \in 1..NT /\ l = 1 /\ chk = FALSE /\ pre = << >> /\ StoreInit
 
 A  == Ev.args
 O(a) == objs[a]
@@ -97,10 +98,10 @@ TEval == /\ IsEvent("eval") /\ Ev.id \in Live /\ chk' = FALSE
                     /\ UNCHANGED rvars
 
 Next == TNew \/ TRewrite \/ TRefuse \/ TMutate \/ TEval
-Spec == Init /\ [][Next]_<<rvars, tid, l, chk>>
+Spec == Init /\ [][Next]_<<rvars, tid, l, chk, pre>>
 
 Track == IF l > TLCGet(tid) THEN TLCSet(tid, l) ELSE TRUE
-InvNoAliasing == NoAliasing
+InvNoAliasing == NoAliasingFrom(pre)
 InvStoreOK    == chk => StoreOK
 (* RewritePreserves on the descriptions actually met: renaming commutes with Eval, the observation through ren is the *)
 (* evaluation of sem, components evaluate like the whole (call-style descriptions; every root argument supplied)    *)
